@@ -11,6 +11,7 @@ def obligations(tier):
     for kind, orate in ((2, '1.0'), (3, '0.0'), (8, '-2.0')) if tier == 'quick' else [(k, o) for k in (2, 3, 8, 0, 1) for o in ('1.0', '0.0', '-2.0', '0.5')]:
         obls.append(create_obl(0, kind, 2, orate=orate))
     obls.append(create_obl(3, timeout=300))
+    obls += [plan_obl(0), plan_obl(2), plan_obl(1, 0), plan_obl(1)]
     for op in (0, 2):
         for (it, ot) in [(0, 1), (6, 3)]:
             obls.append(api_step(op, it, ot, 2, 2))
